@@ -86,11 +86,16 @@ Qed.
 Lemma now32_range r : 0 <= now32 r < M32.
 Proof. unfold now32, u32. apply Z.mod_pos_bound. unfold M32. lia. Qed.
 
+Lemma ff_key_range pgn src dst tp : forall slots i, i <= ff_key slots pgn src dst tp i <= i + Z.of_nat (length slots).
+Proof. induction slots; intros i; simpl; [lia|]. destruct (_ && _); [lia|]. specialize (IHslots (i+1)). lia. Qed.
+
 Lemma find_free_slot_spec ns r pgn src dst tp : SWF ns (r_slots r) ->
   let '(sl, idx) := find_free_slot r pgn src dst tp in
   SWF ns sl /\ 0 <= idx <= Z.of_nat ns /\ (Forall unready (r_slots r) -> Forall unready sl).
 Proof.
-  intros HS. pose proof HS as [Hl Hf]. unfold find_free_slot, nslots. rewrite Hl.
+  intros HS. pose proof HS as [Hl Hf]. unfold find_free_slot, nslots. cbv zeta. rewrite Hl.
+  pose proof (ff_key_range pgn src dst tp (r_slots r) 0) as Hk. rewrite Hl in Hk.
+  destruct (ff_key (r_slots r) pgn src dst tp 0 <? Z.of_nat ns); [split; [auto | split; [lia | auto]]|].
   pose proof (ff_scan_spec pgn src dst tp (r_slots r) 0 (Z.of_nat ns) (now32 r)) as Hs.
   destruct (ff_scan (r_slots r) pgn src dst tp 0 (Z.of_nat ns) (now32 r)) as [[i oi] ot]. rewrite Hl in Hs. destruct Hs as [H1 H2].
   destruct ((i =? Z.of_nat ns) && has_elapsed ot c_Max_N2kMsgBuf_Time (now32 r)) eqn:E.
@@ -101,6 +106,18 @@ Proof.
       * apply SWF_zset; auto. apply free_slot_ok. eapply SWF_znth; eauto.
       * intros HQ. apply quiet_zset; auto. reflexivity.
   - split; [auto | split; [lia | auto]].
+Qed.
+
+(* releasing some slots (FreeMessage on the slots selected by c) keeps the table well formed and quiet *)
+Lemma SWF_map_free ns (c:slot -> bool) l : SWF ns l -> SWF ns (map (fun s => if c s then free_slot s else s) l).
+Proof.
+  intros [Hl Hf]. split; [rewrite map_length; auto|]. apply Forall_forall. intros x Hx. apply in_map_iff in Hx. destruct Hx as (s & <- & Hs).
+  rewrite Forall_forall in Hf. destruct (c s); [apply free_slot_ok|]; auto.
+Qed.
+Lemma quiet_map_free (c:slot -> bool) l : Forall unready l -> Forall unready (map (fun s => if c s then free_slot s else s) l).
+Proof.
+  intros Hf. apply Forall_forall. intros x Hx. apply in_map_iff in Hx. destruct Hx as (s & <- & Hs).
+  rewrite Forall_forall in Hf. destruct (c s); [reflexivity | auto].
 Qed.
 
 Lemma find_tp_slot_range src dst : forall slots i, i <= find_tp_slot slots src dst i <= i + Z.of_nat (length slots).
@@ -201,10 +218,14 @@ Proof.
   pose proof (find_source_device_range nd mx r dst HG) as Hdev. set (idev := find_source_device r dst) in *.
   destruct (pgn =? c_TP_CM).
   { destruct ((byte buf 0 =? c_TP_CM_BAM) || (byte buf 0 =? c_TP_CM_RTS)).
-    { (* RTS / BAM *)
-      pose proof (find_free_slot_spec ns r (le3 buf 5) src dst true HS) as Hf.
-      destruct (find_free_slot r (le3 buf 5) src dst true) as [slots1 idx]. destruct Hf as (HS1 & Hidx & HQ1). specialize (HQ1 HQ).
-      pose proof (with_slots_T _ _ _ _ _ HT HS1) as HT1. set (r1 := with_slots r slots1) in *.
+    { (* RTS / BAM: open sessions of the same source/destination for another PGN are released first *)
+      match goal with |- context [with_slots r (map ?f (r_slots r))] => set (fm := f) in * end.
+      pose proof (SWF_map_free ns _ _ HS : SWF ns (map fm (r_slots r))) as HSm.
+      pose proof (quiet_map_free _ _ HQ : Forall unready (map fm (r_slots r))) as HQm.
+      pose proof (with_slots_T _ _ _ _ _ HT HSm) as HTm. set (rm := with_slots r (map fm (r_slots r))) in *.
+      pose proof (find_free_slot_spec ns rm (le3 buf 5) src dst true HSm) as Hf.
+      destruct (find_free_slot rm (le3 buf 5) src dst true) as [slots1 idx]. destruct Hf as (HS1 & Hidx & HQ1). specialize (HQ1 HQm).
+      pose proof (with_slots_T _ _ _ _ _ HTm HS1) as HT1. set (r1 := with_slots rm slots1) in *.
       assert (HQr1 : rquiet r1) by exact HQ1. assert (Eq1 : r_q r1 = r_q r) by reflexivity.
       destruct (idx =? Z.of_nat ns) eqn:Ei.
       { destruct ((byte buf 0 =? c_TP_CM_RTS) && (idev >=? 0)) eqn:Ea.
@@ -250,6 +271,7 @@ Proof.
       assert (Hi : 0 <= idev < Z.of_nat nd) by (apply negb_false_iff in Er; apply andb_prop in Er; lia).
       destruct (d_tp_msg (get_dev (rn r) idev)) as [pm|]; [|simpl; apply Post_refl_quiet; auto].
       destruct (m_dst pm =? 255); [simpl; apply Post_refl_quiet; auto|].
+      destruct (negb (m_dst pm =? src)); [simpl; apply Post_refl_quiet; auto|].
       destruct (negb (m_pgn pm =? le3 buf 5)).
       { simpl. eapply Post_step; [apply Post_refl_quiet; eauto | apply end_send_tp_r_ok; auto | auto with safe]. }
       destruct (byte buf 1 >? 0).
@@ -268,7 +290,7 @@ Proof.
     destruct (negb ((0 <=? idev) && (idev <? Z.of_nat nd))) eqn:Er; [simpl; apply Post_refl_quiet; auto|].
     assert (Hi : 0 <= idev < Z.of_nat nd) by (apply negb_false_iff in Er; apply andb_prop in Er; lia).
     destruct (d_tp_msg (get_dev (rn r) idev)) as [pm|]; [|simpl; apply Post_refl_quiet; auto].
-    destruct (m_dst pm =? 255); [simpl; apply Post_refl_quiet; auto|].
+    destruct ((m_dst pm =? 255) || negb (m_dst pm =? src)); [simpl; apply Post_refl_quiet; auto|].
     simpl. eapply Post_step; [apply Post_refl_quiet; eauto | apply end_send_tp_r_ok; auto | auto with safe]. }
   destruct (pgn =? c_TP_DT); [|simpl; apply Post_refl_quiet; auto].
   (* TP.DT *)
